@@ -428,7 +428,9 @@ func (s *JavaFullListener) EnterCreator(ctx *parser.CreatorContext) {
 
 	for _, identifier := range allIdentifiers {
 		createdName := identifier.GetText()
-		if !isDeclaredVariable(variableName) {
+		// x = new Foo(): x is a Foo. In handle(apply(a), new Foo()) the first child is another argument
+		// (apply(a)), not a variable: recording it made a later identical expression a "Foo".
+		if isPlainName(variableName) && !isDeclaredVariable(variableName) {
 			localVars[variableName] = createdName
 		}
 
@@ -463,6 +465,11 @@ func (s *JavaFullListener) EnterCreator(ctx *parser.CreatorContext) {
 
 		currentCreatorNode = *creatorNode
 	}
+}
+
+// isPlainName tells whether the text is a single name rather than an expression
+func isPlainName(text string) bool {
+	return text != "" && !strings.ContainsAny(text, "()[]{}.,;:+-*/%<>=!&|^~?\"' ")
 }
 
 func isDeclaredVariable(name string) bool {
